@@ -14,6 +14,7 @@ import SccacheModel.Driver.L1
 import SccacheModel.Driver.Framing
 import SccacheModel.Driver.Tc
 import SccacheModel.Driver.EntryRead
+import SccacheModel.Driver.Atomic
 
 /-- `modeld <model>`: line-protocol driver, one sub-command per executable model (DESIGN.md C.1) -/
 def main (args : List String) : IO UInt32 := do
@@ -34,4 +35,5 @@ def main (args : List String) : IO UInt32 := do
   | ["framing"] => DrvFraming.main *> pure 0
   | ["tc"] => DrvTc.main *> pure 0
   | ["entryread"] => DrvEntryRead.main *> pure 0
+  | ["atomic"] => DrvAtomic.main *> pure 0
   | _ => do IO.eprintln "usage: modeld <model>"; pure 2
